@@ -304,3 +304,19 @@ package casket
 //@ use @verif/specs/stdlib.spec:stdlib
 //@ func DirectiveAction
 //@ func checkFdlimit
+
+//@ unit lifecycle_helpers frames=on props=C08,C16,C15 verify_pure=on nilchecks=on filter=`casket\.(IsLoopback|IsUpgrade|cloneEventHooks|getCurrentCasketfile)$`
+//@ // helpers that the lifecycle units assume through thin contracts: proved against exactly those contracts here
+//@ use @verif/specs/stdlib.spec:stdlib
+//@ extern net.SplitHostPort
+//@   pure
+//@ extern strings.Trim
+//@   pure
+//@ func IsLoopback
+//@   pure
+//@ func IsUpgrade
+//@   pure
+//@ func cloneEventHooks
+//@   ensures result != nil
+//@ func getCurrentCasketfile
+//@   ensures result2 == nil ==> result1 != nil
